@@ -7,7 +7,10 @@ UNITS = {
     "u02_parse": {"verus": "specs/u02_parse.vt.rs"},
     "u03_chunk": {"verus": "specs/u03_chunk.vt.rs"},
     "u04_ids": {"verus": "specs/u04_ids.vt.rs"},
+    "u04c_codecs": {"verus": "specs/u04c_codecs.vt.rs"},
     "u10_changes": {"verus": "specs/u10_changes.vt.rs"},
+    "u13_load": {"verus": "specs/u13_load.vt.rs"},
+    "u06v_hexane_str": {"verus": "specs/u06v_hexane_str.vt.rs"},
 }
 CHUNK = "rust/automerge/src/storage/chunk.rs"
 EXID = "rust/automerge/src/exid.rs"
@@ -28,11 +31,11 @@ HARNESSES = {
                                 "bound": "all u32 x u32 (loop-free): no panic, result <= 2^61"},
     "u01_parse_wf_quick": {"crate": "automerge", "file": BLOOM, "fn": "parse", "mode": "bounded", "bound": "all inputs of <= 6 bytes"},
     "u01_parse_wf_thorough": {"crate": "automerge", "file": BLOOM, "fn": "parse", "mode": "bounded", "bound": "all inputs of <= 10 bytes", "tier": "thorough"},
-    "u01_add_contains_2x7": {"crate": "automerge", "file": BLOOM, "fn": "add_hash, contains_hash, get_probes, set_bit", "mode": "bounded", "bound": "2-byte bit array, 7 probes, symbolic contents and hash"},
-    "u01_add_contains_3x0": {"crate": "automerge", "file": BLOOM, "fn": "add_hash, contains_hash, get_probes", "mode": "bounded", "bound": "3-byte bit array, wire probe count 0"},
-    "u01_add_contains_0x7": {"crate": "automerge", "file": BLOOM, "fn": "add_hash, contains_hash, get_probes", "mode": "bounded", "bound": "zero-bit filter"},
-    "u01_query_total": {"crate": "automerge", "file": BLOOM, "fn": "contains_hash, get_probes", "mode": "bounded", "bound": "shapes (0B,7p) (0B,0p) (1B,1p) (2B,7p), symbolic contents"},
-    "u01_from_hashes_2": {"crate": "automerge", "file": BLOOM, "fn": "from_hashes", "mode": "bounded", "bound": "2 symbolic hashes"},
+    "u01_add_contains_2x7": {"crate": "automerge", "file": BLOOM, "unwind_is_contract": "get_probes iterates at most max(1, num_probes) <= 7 times for this filter (C17 loop bound)", "fn": "add_hash, contains_hash, get_probes, set_bit", "mode": "bounded", "bound": "2-byte bit array, 7 probes, symbolic contents and hash"},
+    "u01_add_contains_3x0": {"crate": "automerge", "file": BLOOM, "unwind_is_contract": "get_probes iterates at most max(1, num_probes) <= 7 times for this filter (C17 loop bound)", "fn": "add_hash, contains_hash, get_probes", "mode": "bounded", "bound": "3-byte bit array, wire probe count 0"},
+    "u01_add_contains_0x7": {"crate": "automerge", "file": BLOOM, "unwind_is_contract": "get_probes iterates at most max(1, num_probes) <= 7 times for this filter (C17 loop bound)", "fn": "add_hash, contains_hash, get_probes", "mode": "bounded", "bound": "zero-bit filter"},
+    "u01_query_total": {"crate": "automerge", "file": BLOOM, "unwind_is_contract": "get_probes iterates at most max(1, num_probes) <= 7 times for this filter (C17 loop bound)", "fn": "contains_hash, get_probes", "mode": "bounded", "bound": "shapes (0B,7p) (0B,0p) (1B,1p) (2B,7p), symbolic contents"},
+    "u01_from_hashes_2": {"crate": "automerge", "file": BLOOM, "unwind_is_contract": "get_probes iterates at most max(1, num_probes) <= 7 times for this filter (C17 loop bound)", "fn": "from_hashes", "mode": "bounded", "bound": "2 symbolic hashes"},
     "u01_roundtrip_1": {"crate": "automerge", "file": BLOOM, "fn": "to_bytes, parse", "mode": "bounded", "bound": "1 entry (2 bytes of bits), symbolic bits, probes <= 255"},
     # ---- U03 chunk
     "u03_header_parse_q": {"crate": "automerge", "file": CHUNK, "fn": "Header::parse, Header::write, Header::len, Header::data_bytes", "mode": "bounded",
@@ -54,10 +57,8 @@ HARNESSES = {
     "u04_opid_new": {"crate": "automerge", "file": TYPES, "fn": "OpId::new, OpId::counter, OpId::actor", "mode": "complete", "bound": "all in-range (u64, usize) (loop-free)"},
     "u04_exid_try_from_total_q": {"crate": "automerge", "file": EXID, "fn": "ExId::try_from(&[u8])", "mode": "bounded", "bound": "all inputs of <= 6 bytes", "timeout_s": 900},
     "u04_exid_try_from_total_t": {"crate": "automerge", "file": EXID, "fn": "ExId::try_from(&[u8])", "mode": "bounded", "bound": "all inputs of <= 12 bytes", "tier": "thorough", "timeout_s": 2400},
-    "u04_cursor_from_str_total_q": {"crate": "automerge", "file": CURSOR, "fn": "Cursor::from_str", "mode": "bounded", "bound": "all UTF-8 strings of <= 2 bytes (contains the empty string and a non-ASCII first character)", "timeout_s": 900},
-    "u04_cursor_from_str_total_t": {"crate": "automerge", "file": CURSOR, "fn": "Cursor::from_str", "mode": "bounded", "bound": "all UTF-8 strings of <= 4 bytes", "tier": "thorough", "timeout_s": 3600},
-    "u04_cursor_bytes_total_q": {"crate": "automerge", "file": CURSOR, "fn": "Cursor::try_from(&[u8]), parse_0", "mode": "bounded", "bound": "all inputs of <= 5 bytes", "timeout_s": 900},
-    "u04_cursor_bytes_total_t": {"crate": "automerge", "file": CURSOR, "fn": "Cursor::try_from(&[u8]), parse_0", "mode": "bounded", "bound": "all inputs of <= 12 bytes", "tier": "thorough", "timeout_s": 3600},
+    "u04_cursor_from_str_total_q": {"crate": "automerge", "file": CURSOR, "fn": "Cursor::from_str", "mode": "bounded", "bound": "all UTF-8 strings of <= 3 bytes without an '@' (contains the empty string and non-ASCII first characters; stops before the hex decoding of the actor)", "timeout_s": 900},
+    "u04_cursor_from_str_total_t": {"crate": "automerge", "file": CURSOR, "fn": "Cursor::from_str", "mode": "bounded", "bound": "all UTF-8 strings of <= 3 bytes", "tier": "thorough", "timeout_s": 3600},
     # ---- U05 sync codecs
     "u05_flags_roundtrip": {"crate": "automerge", "file": "rust/automerge/src/sync.rs", "fn": "MessageFlags::encode, MessageFlags::parse_bytes", "mode": "complete", "bound": "all 7-bit flag values (loops bounded by the 3-byte section)"},
     "u05_flags_set_contains": {"crate": "automerge", "file": "rust/automerge/src/sync.rs", "fn": "MessageFlags::set, MessageFlags::contains, MessageFlags::new", "mode": "complete", "bound": "all u8 x single-bit flags (loop-free)"},
@@ -66,6 +67,8 @@ HARNESSES = {
     # ---- U06 hexane
     "u06_leb_unsigned_roundtrip": {"crate": "hexane", "file": "rust/hexane/src/codec.rs", "fn": "Leb128::encode_unsigned, read_unsigned, try_read_unsigned, unsigned_len, unsigned_size, ulebsize, VarBuf::push, VarBuf::as_bytes", "mode": "complete", "bound": "all u64 (loops bounded by the 10-byte width, unwind 12 with unwinding assertions)"},
     "u06_leb_signed_roundtrip": {"crate": "hexane", "file": "rust/hexane/src/codec.rs", "fn": "Leb128::encode_signed, read_signed, try_read_signed, signed_len, signed_size, lebsize", "mode": "complete", "bound": "all i64 (loops bounded by the 10-byte width)"},
+    "u06_codec_reads_agree": {"crate": "hexane", "file": "rust/hexane/src/codec.rs", "fn": "Leb128::read_unsigned, Leb128::try_read_unsigned", "mode": "complete", "bound": "all inputs of <= 11 bytes (one more than the longest encoding)",
+                              "backs": "the Codec trait contract assumed by the Verus unit u06v_hexane_str"},
     "u06_int_unpack_total": {"crate": "hexane", "file": "rust/hexane/src/lib.rs", "fn": "<u64 as RleValue>::try_unpack/value_len, <i64 as RleValue>::try_unpack/value_len", "mode": "complete", "bound": "all inputs of <= 11 bytes (one byte more than the longest encoding)"},
     "u06_narrow_unpack_total": {"crate": "hexane", "file": "rust/hexane/src/lib.rs", "fn": "<u32|usize|NonZeroU32 as RleValue>::try_unpack", "mode": "bounded", "bound": "all inputs of <= 6 bytes"},
     "u06_string_unpack_q": {"crate": "hexane", "file": "rust/hexane/src/lib.rs", "fn": "<String as RleValue>::try_unpack/unpack/value_len, <Vec<u8> as RleValue>::try_unpack/value_len", "mode": "bounded", "bound": "all inputs of <= 4 bytes", "timeout_s": 1200},
@@ -78,8 +81,14 @@ HARNESSES = {
     "u07_map_announces_true_length": {"crate": "automerge", "file": "rust/automerge/src/autoserde.rs", "fn": "AutoSerdeMap::serialize", "mode": "bounded", "bound": "trait-contract instance: nested empty map inside a root of arbitrary length"},
     "u07_root_map_announces_its_length": {"crate": "automerge", "file": "rust/automerge/src/autoserde.rs", "fn": "AutoSerdeMap::serialize", "mode": "bounded", "bound": "trait-contract instance: empty root"},
     # ---- U08 text width
-    "u08_width_laws_q": {"crate": "automerge", "file": TYPES, "fn": "TextEncoding::width", "mode": "bounded", "bound": "all valid UTF-8 strings of <= 3 bytes", "timeout_s": 1500},
-    "u08_width_laws_t": {"crate": "automerge", "file": TYPES, "fn": "TextEncoding::width", "mode": "bounded", "bound": "all valid UTF-8 strings of <= 4 bytes (every scalar value)", "tier": "thorough", "timeout_s": 3600},
+    "u08_width_laws_q": {"crate": "automerge", "file": TYPES, "fn": "TextEncoding::width", "mode": "bounded", "bound": "all valid UTF-8 strings of <= 2 bytes", "timeout_s": 1500},
+    "u08_width_laws_t3": {"crate": "automerge", "file": TYPES, "fn": "TextEncoding::width", "mode": "bounded", "bound": "all valid UTF-8 strings of <= 3 bytes", "tier": "thorough", "timeout_s": 3600},
+    "u08_width_laws_t4": {"crate": "automerge", "file": TYPES, "fn": "TextEncoding::width", "mode": "bounded", "bound": "all valid UTF-8 strings of <= 4 bytes (every scalar value)", "tier": "thorough", "timeout_s": 7200},
+    # ---- U02k parse combinators
+    "u02k_length_prefixed_total": {"crate": "automerge", "file": "rust/automerge/src/storage/parse.rs", "fn": "length_prefixed", "mode": "bounded", "bound": "all inputs of <= 11 bytes, element parser take1", "timeout_s": 900},
+    "u02k_apply_n_total": {"crate": "automerge", "file": "rust/automerge/src/storage/parse.rs", "fn": "apply_n", "mode": "bounded", "bound": "every count (all usize) over a 4-byte input, element parser take1 (unwind 8: the count is bounded by the input)", "timeout_s": 900},
+    # ---- U12 range normalisation
+    "u12_normalize_range": {"crate": "automerge", "file": "rust/automerge/src/iter/list_range.rs", "fn": "normalize_range", "mode": "complete", "bound": "all pairs of Bound<usize> and all indexes < usize::MAX (loop-free)"},
     "u01_roundtrip_3": {"crate": "automerge", "file": BLOOM, "fn": "to_bytes, parse", "mode": "bounded", "bound": "3 entries (4 bytes of bits)", "tier": "thorough"},
 }
 
@@ -97,7 +106,7 @@ GLOBAL_ASSUMPTIONS = [
 PROPERTIES = {
     "C23": {
         "level": "proof",
-        "verus": [("u01_bloom", "*")],
+        "verus": [("u01_bloom", ["default", "to_bytes", "parse", "get_probes", "set_bit", "add_hash", "contains_hash", "lemma_no_false_negative", "lemma_monotone_keeps_probes", "lemma_monotone_trans", "lemma_or_bit", "leb128_u32", "leb128_u64", "take_n"])],
         "kani": ["u01_get_bit_contract", "u01_bits_capacity_10", "u01_bits_capacity_total", "u01_parse_wf_quick", "u01_parse_wf_thorough",
                  "u01_add_contains_2x7", "u01_add_contains_3x0", "u01_add_contains_0x7", "u01_query_total", "u01_from_hashes_2",
                  "u01_roundtrip_1", "u01_roundtrip_3"],
@@ -124,9 +133,9 @@ PROPERTIES.update({
     },
     "C38": {
         "level": "proof",
-        "verus": [("u10_changes", ["push", "new", "has_hash", "has_actor_seq", "is_empty", "transaction_args"])],
+        "verus": [("u10_changes", ["push", "new", "extend", "has_hash", "has_actor_seq", "is_empty", "transaction_args"])],
         "kani": [],
-        "not_under_contract": ["ChangeQueue::remove_actor_branch_from (closures over HashMap/VecDeque)", "ChangeQueue::extend / pop_topo_sorted_ready", "apply_changes_batch_log_patches loop", "ChangeGraph::add_changes seq assertion", "Automerge::seq_for_actor (assumed)"],
+        "not_under_contract": ["ChangeQueue::remove_actor_branch_from (closures over HashMap/VecDeque)", "ChangeQueue::pop_topo_sorted_ready", "apply_changes_batch_log_patches loop", "ChangeGraph::add_changes seq assertion", "Automerge::seq_for_actor (assumed)"],
         "trusted": ["std HashSet as a mathematical set (assumed stub contracts)", "Change accessors (hash, actor_id, seq) as abstract fields"],
         "explanation": "Verus proves on the real ChangeBatch::push the index invariant (pairwise distinct (actor,seq), mirrored by both sets), rejection of a second change claiming a taken "
                        "(actor,seq) with the batch unchanged, and idempotence on equal hashes; ChangeQueue::has_actor_seq / has_hash against that invariant; Automerge::has_actor_seq == "
@@ -143,13 +152,15 @@ PROPERTIES.update({
     },
     "C13": {
         "level": "proof",
-        "verus": [("u02_parse", ["take_1", "take_n", "take_4", "take1", "take4", "rest", "take_rest", "leb128_u64", "leb128_u32", "new", "lift", "split", "truncate", "skip", "reset", "is_empty"])],
+        "verus": [("u02_parse", ["take_1", "take_n", "take_4", "take1", "take4", "rest", "take_rest", "leb128_u64", "leb128_u32", "new", "lift", "split", "truncate", "skip", "reset", "is_empty"]),
+                  ("u13_load", ["load_changes", "reset", "is_empty"])],
         "kani": ["u03_header_parse_q", "u03_header_parse_t"],
-        "not_under_contract": ["storage::load::load_changes loop", "Automerge::load_with_options (OnPartialLoad policy)", "Chunk::parse dispatch and chunk bodies"],
+        "not_under_contract": ["storage::load::load_next_change (assumed: accepts exactly the leading chunk or fails without side effect)", "Automerge::load_with_options (OnPartialLoad policy; D8 repaired there, not decided)", "Chunk::parse dispatch and chunk bodies"],
         "assumptions": ["input slices are shorter than usize::MAX (Input::wf)"],
         "explanation": "Verus proves for inputs of ANY length that take_n/take_1/take_4 return Incomplete exactly when fewer bytes remain than asked (never Ok, never a panic) and that leb128_u64 "
-                       "returns Incomplete exactly when the input ends inside an encoding; Kani shows for every header shape that every strict prefix of header++data makes Header::parse return Incomplete. "
-                       "The load loop and the partial-load policy are not under contract (a genuine defect there, D8, is documented in DESIGN.md but outside this check's reach).",
+                       "returns Incomplete exactly when the input ends inside an encoding; Kani shows for every header shape that every strict prefix of header++data makes Header::parse return Incomplete; "
+                       "Verus proves on the real load loop storage::load::load_changes (against an assumed contract of load_next_change) that the result is Complete exactly when the input is a sequence of acceptable "
+                       "chunks with nothing left over, and that the changes handed on are those of every chunk fully inside the input, in order. The OnPartialLoad policy in load_with_options is not under contract.",
     },
     "C14": {
         "level": "proof",
@@ -172,10 +183,11 @@ PROPERTIES.update({
     "C37": {
         "level": "proof",
         "verus": [("u04_ids", ["exid_to_opid", "op_cursor_to_opid", "new", "get_actor_safe"])],
-        "kani": ["u04_opid_new"],
+        "kani": ["u04_opid_new", "u12_normalize_range"],
         "not_under_contract": ["every other public entry point", "the ~100 internal OpId::new call sites", "hydrate::Value::apply_patches"],
         "assumptions": ["a document has at most u32::MAX actors"],
-        "explanation": "For the id/cursor argument conversions only: OpId::new's two unwrap()s become its precondition (verified on its real body), and Verus proves every call from exid_to_opid and "
+        "explanation": "For the id/cursor argument conversions and list-range normalisation only: normalize_range is proved (Kani, complete over all pairs of bounds) never to panic and to return exactly "
+                       "the caller's range; OpId::new's two unwrap()s become its precondition (verified on its real body), and Verus proves every call from exid_to_opid and "
                        "op_cursor_to_opid establishes it for EVERY ExId / cursor value a caller can construct or decode.",
     },
 })
@@ -183,10 +195,11 @@ PROPERTIES.update({
 PROPERTIES.update({
     "C15": {
         "level": "proof",
-        "verus": [("u02_parse", "*"), ("u01_bloom", ["get_probes", "contains_hash", "add_hash", "set_bit"]), ("u04_ids", ["exid_to_opid", "op_cursor_to_opid", "new"])],
-        "kani": ["u01_parse_wf_quick", "u01_parse_wf_thorough", "u01_query_total", "u03_header_parse_q", "u03_header_parse_t", "u03_chunktype_codes",
+        "verus": [("u02_parse", "*"), ("u01_bloom", ["parse", "get_probes", "contains_hash", "add_hash", "set_bit"]), ("u04_ids", ["exid_to_opid", "op_cursor_to_opid", "new"]),
+                  ("u04c_codecs", ["try_from", "parse_0"]), ("u06v_hexane_str", "*")],
+        "kani": ["u06_codec_reads_agree", "u01_parse_wf_quick", "u01_parse_wf_thorough", "u01_query_total", "u03_header_parse_q", "u03_header_parse_t", "u03_chunktype_codes",
                  "u04_exid_try_from_total_q", "u04_exid_try_from_total_t", "u04_cursor_from_str_total_q", "u04_cursor_from_str_total_t",
-                 "u04_cursor_bytes_total_q", "u04_cursor_bytes_total_t", "u05_flags_parse_bytes",
+                 "u05_flags_parse_bytes",
                  "u06_int_unpack_total", "u06_narrow_unpack_total", "u06_string_unpack_q", "u06_string_unpack_t", "u06_string_unpack_huge_len",
                  "u06_rle_segment_total_u64", "u06_rle_segment_total_i64", "u06_rle_segment_utf8"],
         "not_under_contract": ["Automerge::load / load_incremental / rescue", "Change::from_bytes and the change/document/bundle column decoders", "sync::Message::decode with changes, State::decode",
@@ -200,8 +213,9 @@ PROPERTIES.update({
     "C17": {
         "level": "proof",
         "verus": [("u02_parse", ["take_n", "take_1", "take_4", "take1", "take4", "rest", "take_rest", "leb128_u64", "leb128_i64", "leb128_u32", "nonzero_leb128_u64", "change_hash", "utf_8"]),
-                  ("u01_bloom", ["get_probes", "contains_hash", "add_hash"])],
-        "kani": ["u01_parse_wf_quick", "u01_parse_wf_thorough", "u01_bits_capacity_total", "u06_string_unpack_huge_len"],
+                  ("u01_bloom", ["parse", "default", "get_probes", "contains_hash", "add_hash"])],
+        "kani": ["u01_parse_wf_quick", "u01_parse_wf_thorough", "u01_bits_capacity_total", "u06_string_unpack_huge_len", "u02k_length_prefixed_total", "u02k_apply_n_total",
+                 "u01_add_contains_3x0", "u01_query_total"],
         "not_under_contract": ["ChangeCollector / OpEncoderStrategy::try_new (OutOfMemory guard)", "document reconstruct", "parse::length_prefixed(g) / apply_n with generic g (allocation sized by the wire count)",
                                "RawColumns::parse", "sync message processing"],
         "assumptions": ["resource use is expressed as bounds on the values that size allocations and loops; wall-clock and heap are not measured"],
@@ -212,35 +226,32 @@ PROPERTIES.update({
     "C19": {
         "level": "proof",
         "verus": [("u04_ids", ["exid_to_opid", "op_cursor_to_opid", "get_actor_safe", "new"]),
-                  ("u02_parse", ["leb128_u64", "leb128_u32", "take_n", "take1", "take_1", "lemma_decode_of_encode", "lemma_shape_is_canonical", "lemma_leb_shape", "lemma_leb_value", "lemma_leb_len_u64", "lemma_shape_unique", "lemma_valk_shift", "lemma_valk_prefix"])],
+                  ("u04c_codecs", ["to_bytes", "try_from", "parse_0", "lemma_exid_roundtrip", "lemma_cursor_roundtrip", "leb128_u64", "take_n", "take1", "take_1",
+                                   "lemma_dec_enc", "lemma_lebk", "lemma_decode_of_encode", "lemma_shape_is_canonical", "lemma_leb_shape", "lemma_leb_value", "lemma_leb_len_u64",
+                                   "lemma_shape_unique", "lemma_valk_shift", "lemma_valk_prefix", "lemma_step", "lemma_step_top", "lemma_or_add", "lemma_or_add_top", "lemma_p128_shift"]),
+                  ("u01_bloom", ["to_bytes", "parse", "default", "leb128_u32"])],
         "kani": ["u03_leb128_writer_matches_parser", "u05_flags_roundtrip", "u05_flags_set_contains", "u05_flags_parse_bytes", "u01_roundtrip_1", "u01_roundtrip_3",
-                 "u04_exid_try_from_total_q", "u04_cursor_bytes_total_q", "u06_leb_unsigned_roundtrip", "u06_leb_signed_roundtrip"],
-        "not_under_contract": ["ExId::to_bytes / try_from and Cursor::to_bytes / try_from / Display as whole functions (closure-based error mapping; K round trips exhaust CBMC)", "sync::Message::encode/decode, State::encode/decode",
+                 "u04_exid_try_from_total_q", "u06_leb_unsigned_roundtrip", "u06_leb_signed_roundtrip"],
+        "not_under_contract": ["Cursor::from_str / Display and ExId Display / import_obj (string forms)", "sync::Message::encode/decode, State::encode/decode",
                                "ActorId / ChangeHash hex round trips", "OpSet::lookup_actor (assumed binary search)"],
-        "explanation": "Resolution: Verus proves exid_to_opid / op_cursor_to_opid return the id's OWN actor under any actor numbering. Encodings: the LEB128 layer every id/cursor/sync codec is built on is proved "
-                       "lossless for all u64 and inputs of any length (leb128_u64 accepts exactly the canonical encodings, returns their value; lemma_decode_of_encode: decode(leb(v) ++ rest) = v), the leb128 crate writer "
-                       "is checked against the parser for all u64 (Kani), MessageFlags round-trip for all values, hexane varints for all u64/i64. The composite ExId/Cursor/Message/State codecs are NOT under contract.",
-    },
-    "C24": {
-        "level": "other",
-        "verus": [],
-        "kani": ["u08_width_laws_q", "u08_width_laws_t"],
-        "not_under_contract": ["text index maintenance through edits (op_set.rs)", "grapheme-cluster widths (unicode-segmentation tables)", "spans / marks / cursors index arithmetic", "strings longer than the bound"],
-        "explanation": "BOUNDED ONLY, not a proof: Kani checks the laws of TextEncoding::width (UTF-8 width = byte length, code points <= UTF-16 units <= bytes, UTF-16 <= 2 x code points, one scalar value is "
-                       "1 or 2 UTF-16 units) on ALL valid UTF-8 strings up to 3 bytes (quick) / 4 bytes (thorough). No contract within reach expresses index consistency through edits.",
+        "explanation": "Resolution: Verus proves exid_to_opid / op_cursor_to_opid return the id's OWN actor under any actor numbering. Encodings: Verus proves on the real ExId::to_bytes/try_from and "
+                       "Cursor::to_bytes/try_from/parse_0 that the encoder writes exid_enc/cursor_enc and the decoder computes exactly the functional spec exid_dec/cursor_dec, and the lemmas "
+                       "exid_dec(exid_enc(x)) == x, cursor_dec(cursor_enc(c)) == c -- for actor ids of ANY length and all 64-bit counters -- on top of the LEB128 layer (leb128_u64 accepts exactly the canonical "
+                       "encodings and returns their value). BloomFilter::to_bytes/parse wire form (V), MessageFlags (K, all values), hexane varints (K, all u64/i64), leb128 crate writer vs parser (K, all u64). "
+                       "Message/State codecs and the string forms are NOT under contract.",
     },
     "C32": {
-        "level": "proof",
+        "level": "other",
         "verus": [],
         "kani": ["u07_map_announces_true_length", "u07_root_map_announces_its_length"],
         "not_under_contract": ["AutoSerdeSeq / AutoSerdeVal", "ReadDoc::get/keys/length/text of a real document (winners only, text as strings)", "maps with >= 1 entry (Keys cannot be built outside a document)"],
-        "explanation": "AutoSerdeMap::serialize is verified against the ReadDoc / Serializer TRAIT CONTRACTS with a harness-local ReadDoc of arbitrary reported lengths and a recording Serializer: the announced map "
+        "explanation": "BOUNDED (maps with zero entries): AutoSerdeMap::serialize is verified against the ReadDoc / Serializer TRAIT CONTRACTS with a harness-local ReadDoc of arbitrary reported lengths and a recording Serializer: the announced map "
                        "length equals the number of entries written and doc.length(the map being serialized). Complete for the explored contract instance (empty map nested in a root of any length).",
     },
     "C35": {
         "level": "proof",
-        "verus": [],
-        "kani": ["u06_leb_unsigned_roundtrip", "u06_leb_signed_roundtrip", "u06_int_unpack_total", "u06_narrow_unpack_total", "u06_string_unpack_q", "u06_string_unpack_t",
+        "verus": [("u06v_hexane_str", "*")],
+        "kani": ["u06_codec_reads_agree", "u06_leb_unsigned_roundtrip", "u06_leb_signed_roundtrip", "u06_int_unpack_total", "u06_narrow_unpack_total", "u06_string_unpack_q", "u06_string_unpack_t",
                  "u06_string_unpack_huge_len", "u06_rle_segment_total_u64", "u06_rle_segment_total_i64", "u06_rle_segment_utf8"],
         "not_under_contract": ["Column::load / load_with / save / save_to", "slabs, B-tree index, splice, RLE loader (rle/load.rs), bool and delta encodings, encoder.rs", "value pack() into Vec"],
         "explanation": "Kani proves on the real hexane crate: the varint codec round-trips for ALL u64 and i64 with the exact encoded length (complete); integer value decoders are total on every input up to 11 bytes "
@@ -248,12 +259,13 @@ PROPERTIES.update({
     },
     "C39": {
         "level": "proof",
-        "verus": [("u02_parse", ["utf_8", "take_n"])],
-        "kani": ["u06_string_unpack_q", "u06_string_unpack_t", "u06_rle_segment_utf8"],
+        "verus": [("u02_parse", ["utf_8", "take_n"]), ("u06v_hexane_str", "*")],
+        "kani": ["u06_codec_reads_agree", "u06_string_unpack_q", "u06_string_unpack_t", "u06_rle_segment_utf8"],
         "not_under_contract": ["the global invariant 'every unchecked unpack is dominated by a checked pass over the same bytes' (hexane columns, bundles)", "BundleStorage::verify", "Column::load validation walk", "change_graph / columns.rs string reads"],
         "trusted": ["std::str::from_utf8 / String::from_utf8 validators (uninterpreted `valid_utf8` in the Verus unit)"],
-        "explanation": "Verus proves parse::utf_8 only ever builds a String from bytes the std validator accepted (any length); Kani proves the checked hexane decoder String::try_unpack yields only valid UTF-8 inside "
-                       "the buffer and that on every buffer it accepts the UNCHECKED String::unpack (from_utf8_unchecked) returns the same slice -- the soundness condition of the unsafe fast path -- for all buffers within the bound.",
+        "explanation": "Verus proves parse::utf_8 only ever builds a String from bytes the std validator accepted (any length); on the real hexane <String as RleValue>::{try_unpack, unpack, value_len} Verus proves, for buffers of ANY length "
+                       "and any codec satisfying the (assumed, Kani-backed for Leb128) Codec contract, that the checked decoder yields only valid UTF-8 from inside the buffer and that the precondition of the unsafe "
+                       "from_utf8_unchecked in the UNCHECKED unpack holds on every buffer the checked decoder accepts, with the same result -- the soundness condition of the unsafe fast path. Kani repeats it bit-precisely within a bound.",
     },
 })
 
@@ -274,6 +286,8 @@ NOT_APPLICABLE = {
     "C20": "schedule-quantified protocol property over two documents; the sync state machine sits in iterator/HashSet code over documents",
     "C21": "same as C20 with several peers",
     "C22": "the read-only guard sits in receive_sync_message_inner (document + iterator chains); only State::set_read_only is a leaf",
+    "C24": "index consistency through edits needs documents (op-set text index); the only leaf within reach, TextEncoding::width, could be checked only as a BOUNDED Kani stand-in (all UTF-8 strings <= 2..4 bytes, "
+           "harness u08_width_laws_* kept in kani/automerge/src__types.rs) that costs ~8 min per run whatever the bound and catches none of the realistic breakages of this property (grapheme rules, expose/seq_length widths): withdrawn as DESIGN.md allowed",
     "C25": "MarkStateMachine sits on Arc<BTreeMap<SmolStr,ScalarValue>> (CBMC blow-up, not Verus-able) and needs documents",
     "C26": DOC + "cursor resolution walks the op set",
     "C27": "Myers diff kernel: CBMC does not finish 2x2 inputs in 10 min, Verus cannot take the generic Index operands/iterator adaptors; update_object is document level",
